@@ -27,5 +27,19 @@ Definition obs_eqb (a b : cli_obs) : bool :=
   (ob_exit a =? ob_exit b) && opt_int_eqb (ob_stdout a) (ob_stdout b)
   && ((ob_exit a =? 0) || Bool.eqb (ob_stderr_nonempty a) (ob_stderr_nonempty b))
   && option_eqb opt_int_eqb (ob_file a) (ob_file b).
-Definition ev_cli (c : clicase) : bool := obs_eqb (expected_obs c) (cl_obs c).
+(* the character tables are claimed faithful on Sigma only: when the inferred tree has a name outside
+   Sigma the text itself is not compared (the harness compares it with the library's own rendering),
+   only exit status, stderr and where the text went *)
+Definition presence (o : option int) : option int := match o with Some _ => Some 0%uint63 | None => None end.
+Definition coarse (o : cli_obs) : cli_obs :=
+  {| ob_exit := ob_exit o; ob_stdout := presence (ob_stdout o); ob_stderr_nonempty := ob_stderr_nonempty o;
+     ob_file := option_map presence (ob_file o) |}.
+Definition cli_in_sigma (c : clicase) : bool :=
+  match cl_read c with
+  | RText evs => match into_struct_ev evs with Ok e => tree_in_sigma e | _ => true end
+  | RFail => true
+  end.
+Definition ev_cli (c : clicase) : bool :=
+  if cli_in_sigma c then obs_eqb (expected_obs c) (cl_obs c)
+  else obs_eqb (coarse (expected_obs c)) (coarse (cl_obs c)).
 Definition show_cli (c : clicase) := (expected_obs c, cli_run (cl_args c) (cl_read c) (cl_create_ok c)).
